@@ -46,6 +46,19 @@ def discharge_all(obs, timeout_ms=8000, procs=None):
             with ctx.Pool(min(procs or 16, len(hard))) as pool:
                 rs = pool.map(_work, hard, chunksize=1)
         for r in rs: res[r[0]] = r
+        # an obligation that is still open gets one more attempt with five times the budget: a verdict must not flip to "undecided"
+        # because the machine is busy (all cores loaded by other checks); unprovable obligations cost the extra budget once, in parallel
+        again = [i for i in hard if res[i][1] == 'unknown']
+        if again and not os.environ.get('VF_NO_RETRY'):
+            _OBS = [(ob, timeout_ms * 5) for ob in obs]
+            if len(again) <= 1 or os.environ.get('VF_SERIAL'):
+                rs = [_work(i) for i in again]
+            else:
+                ctx = mp.get_context('fork')
+                with ctx.Pool(min(procs or 16, len(again))) as pool:
+                    rs = pool.map(_work, again, chunksize=1)
+            for r in rs:
+                if r[1] != 'unknown': res[r[0]] = r
     return [res[i][1:] for i in range(len(obs))]
 
 
